@@ -211,7 +211,14 @@ class PairChecker:
         err2 = plugin_check(C)
         self.rec.check(err2 is not None, "c13:refused-then-accepted:same-class-checked-again", f"child ({sl.tstr(c_ts)} over {sl.tstr(p_ts)}) was refused by the plugin check and is accepted when checked again", case, fns)
         self.rechecks = getattr(self, "rechecks", 0) + 1
-        if self.rechecks % 20 == 1:
+        from metador_core.schema.core import check_types
+
+        try:
+            check_types(C, recheck=True)
+            by_type_check = False  # refused for a reason that concerns the plugin itself (not its field types): a class nesting it is not concerned
+        except Exception:  # noqa
+            by_type_check = True
+        if by_type_check and self.rechecks % 20 == 1:
             for i in (1, 2):
                 try:
                     nm = f"User{i}x{next(_counter)}"
